@@ -190,6 +190,7 @@ class Continuous(AgentSchedulingComponent):
         # resources of this node which are claimed by the slots found so far
         lfs_used = 0
         mem_used = 0
+        gpu_used = dict()  # shared GPUs: {gpu_idx: occupation}
 
         # find at most `n_slots`
         loop_core_idx = 0
@@ -262,9 +263,12 @@ class Continuous(AgentSchedulingComponent):
                 for gpu_idx,gpu_occ in enumerate(node['gpus'][loop_gpu_idx:],
                                                               loop_gpu_idx):
 
-                    if gpus_per_slot <= rpc.BUSY - gpu_occ:
+                    if gpus_per_slot <= rpc.BUSY - gpu_occ \
+                                        - gpu_used.get(gpu_idx, 0.0):
                         slot['gpus'].append(RO(index=gpu_idx,
                                                occupation=gpus_per_slot))
+                        gpu_used[gpu_idx] = gpu_used.get(gpu_idx, 0.0) \
+                                          + gpus_per_slot
                         break
                     else:
                         loop_gpu_idx = gpu_idx + 1
